@@ -19,6 +19,8 @@ from . import env
 from .api import Outcome, Stats, HarnessError
 
 VERIF = env.VERIF
+# Runs against a scratch tree (sensitivity tests) must not touch the committed evidence/replays.
+OUT = os.environ.get("VERIF_OUT") or (VERIF if env.REPO == "/repo" else "/tmp/verif-scratch-out")
 
 
 def log(*a):
@@ -171,7 +173,7 @@ def _oracle_for(mod, rec):
 
 
 def write_replay(pid, bucket, failure, mod):
-    d = os.path.join(VERIF, "replays", pid)
+    d = os.path.join(OUT, "replays", pid)
     os.makedirs(d, exist_ok=True)
     h = hashlib.blake2b(bucket.encode(), digest_size=5).hexdigest()
     path = os.path.join(d, "fail-%s.json" % h)
@@ -214,7 +216,7 @@ def write_evidence(mod, pid, tier, seed, stats, wall, nviol, known_lines, extra=
         wall_s=round(wall, 2),
         violations=nviol,
     )
-    d = os.path.join(VERIF, "evidence")
+    d = os.path.join(OUT, "evidence")
     os.makedirs(d, exist_ok=True)
     tmp = os.path.join(d, ".%s.json.tmp" % pid)
     with open(tmp, "w") as f:
@@ -268,6 +270,8 @@ def main(argv=None):
                 print("  bucket: %s\n  %s" % (b, m.replace("\n", "\n  ")))
             return rc
 
+        for stale in glob.glob(os.path.join(OUT, "replays", pid, "fail-*.json")):
+            os.remove(stale)
         stats = Stats()
         tr = time.time()
         run_replays(mod, pid, stats)
